@@ -4,7 +4,11 @@
    a transaction is MINED.  A withdrawal pays deposit + credit - fee and submits a settlement that
    sets the on-chain deposit to 0.  The question (C07): can a wallet be paid its deposit twice?
    [refresh_on_settle] is the repaired code (the cache is set when the settlement is submitted);
-   without it the cache keeps the old deposit until the settlement is mined (D29). *)
+   without it the cache keeps the old deposit until the settlement is mined (D29).
+   The cache may be bounded: [d_full] says that it is full of other accounts' entries (anybody can
+   look up any account), and [dc_when_full] what a Set does then: store all the same (the pinned
+   code: no bound), drop the wallet's entry so that the next read asks the contract (a correct
+   bound), or leave the old entry in place (an update silently dropped). *)
 From VP Require Import Base.
 
 Record dstate := {
@@ -12,6 +16,7 @@ Record dstate := {
   d_pending : list Z;       (* new deposits of submitted, not yet mined settlements, oldest first *)
   d_locked : bool;          (* the wallet asked for a forced settlement: the deposit is timelocked *)
   d_cache : option Z;
+  d_full : bool;            (* the cache is full of other accounts' entries *)
   d_credit : Z;             (* off-chain credit on the ledger *)
   d_paid : Z;               (* what the contract has been told to pay the wallet so far *)
   d_in : Z                  (* ghost: everything the wallet put in or earned *)
@@ -23,7 +28,21 @@ Inductive dop :=
 | DForce                    (* forceSettle: timelock, no Balance event *)
 | DWithdraw                 (* pool_withdraw *)
 | DMine                     (* the oldest pending settlement is mined: Balance event *)
-| DRestart.                 (* the pool process restarts: the cache starts empty *)
+| DRestart                  (* the pool process restarts: the cache starts empty *)
+| DRead                     (* pool_account / a keep-alive reads the balance (fills the cache on a miss) *)
+| DCrowd (full : bool).     (* other accounts are looked up until the cache is full / their entries expire *)
+
+Inductive full_policy := FPStore | FPEvict | FPKeepOld.
+Record dcfg := { dc_fee : Z; dc_min : option Z; dc_refresh_on_settle : bool; dc_when_full : full_policy }.
+
+(* balanceCache.Set *)
+Definition cache_set (cfg : dcfg) (s : dstate) (v : Z) : option Z :=
+  if d_full s then match dc_when_full cfg with FPStore => Some v | FPEvict => None | FPKeepOld => d_cache s end
+  else Some v.
+
+Definition upd (s : dstate) (chain : Z) (pending : list Z) (locked : bool) (cache : option Z) (credit paid din : Z) : dstate :=
+  {| d_chain := chain; d_pending := pending; d_locked := locked; d_cache := cache; d_full := d_full s;
+     d_credit := credit; d_paid := paid; d_in := din |}.
 
 (* the contract's pending view: what Accounts(Pending: true) answers *)
 Fixpoint last_or (d : Z) (l : list Z) : Z := match l with [] => d | x :: r => last_or x r end.
@@ -32,65 +51,59 @@ Definition eff_locked (s : dstate) : bool := match d_pending s with [] => d_lock
 
 (* balanceCache.Get: a hit answers from the cache; a miss asks the contract, which refuses a
    timelocked deposit, and fills the cache *)
-Definition read (s : dstate) : option Z * option Z (* answer, cache afterwards *) :=
+Definition read (cfg : dcfg) (s : dstate) : option Z * option Z (* answer, cache afterwards *) :=
   match d_cache s with
   | Some v => (Some v, Some v)
-  | None => if eff_locked s then (None, None) else (Some (eff s), Some (eff s))
+  | None => if eff_locked s then (None, None) else (Some (eff s), cache_set cfg s (eff s))
   end.
-
-Record dcfg := { dc_fee : Z; dc_min : option Z; dc_refresh_on_settle : bool }.
 
 Definition dstep (cfg : dcfg) (s : dstate) (o : dop) : dstate * Z (* paid by this step *) :=
   match o with
   | DDeposit v =>
       match d_pending s with
       | [] => if (0 <? v) && negb (d_locked s)
-              then ({| d_chain := d_chain s + v; d_pending := []; d_locked := false;
-                       d_cache := Some (d_chain s + v); d_credit := d_credit s; d_paid := d_paid s;
-                       d_in := d_in s + v |}, 0)
+              then (upd s (d_chain s + v) [] false (cache_set cfg s (d_chain s + v)) (d_credit s) (d_paid s) (d_in s + v), 0)
               else (s, 0)
       | _ => (s, 0)   (* a deposit racing a pending settlement is overwritten by the contract's
                          opSettle: the contract's own race, outside the pool's code *)
       end
   | DEarn c =>
-      if 0 <=? c then ({| d_chain := d_chain s; d_pending := d_pending s; d_locked := d_locked s; d_cache := d_cache s;
-                          d_credit := d_credit s + c; d_paid := d_paid s; d_in := d_in s + c |}, 0)
+      if 0 <=? c then (upd s (d_chain s) (d_pending s) (d_locked s) (d_cache s) (d_credit s + c) (d_paid s) (d_in s + c), 0)
       else (s, 0)
   | DForce =>
       match d_pending s with
       | [] => if 0 <? d_chain s
-              then ({| d_chain := d_chain s; d_pending := []; d_locked := true; d_cache := d_cache s;
-                       d_credit := d_credit s; d_paid := d_paid s; d_in := d_in s |}, 0)
+              then (upd s (d_chain s) [] true (d_cache s) (d_credit s) (d_paid s) (d_in s), 0)
               else (s, 0)
       | _ => (s, 0)
       end
   | DWithdraw =>
-      match read s with
+      match read cfg s with
       | (None, _) => (s, 0)                                  (* refused: the deposit is timelocked *)
       | (Some dep, cache1) =>
           let total := dep + d_credit s in
           let below := match dc_min cfg with Some m => total <? m | None => false end in
-          if below || (total - dc_fee cfg <? 0) then
-            ({| d_chain := d_chain s; d_pending := d_pending s; d_locked := d_locked s; d_cache := cache1;
-                d_credit := d_credit s; d_paid := d_paid s; d_in := d_in s |}, 0)
+          let s1 := upd s (d_chain s) (d_pending s) (d_locked s) cache1 (d_credit s) (d_paid s) (d_in s) in
+          if below || (total - dc_fee cfg <? 0) then (s1, 0)
           else
-            ({| d_chain := d_chain s; d_pending := d_pending s ++ [0]; d_locked := d_locked s;
-                d_cache := if dc_refresh_on_settle cfg then Some 0 else cache1;
-                d_credit := 0; d_paid := d_paid s + (total - dc_fee cfg); d_in := d_in s |},
+            (upd s (d_chain s) (d_pending s ++ [0]) (d_locked s)
+                 (if dc_refresh_on_settle cfg then cache_set cfg s1 0 else cache1)
+                 0 (d_paid s + (total - dc_fee cfg)) (d_in s),
              total - dc_fee cfg)
       end
-  | DRestart =>
-      ({| d_chain := d_chain s; d_pending := d_pending s; d_locked := d_locked s; d_cache := None;
+  | DRestart => (upd s (d_chain s) (d_pending s) (d_locked s) None (d_credit s) (d_paid s) (d_in s), 0)
+  | DRead => (upd s (d_chain s) (d_pending s) (d_locked s) (snd (read cfg s)) (d_credit s) (d_paid s) (d_in s), 0)
+  | DCrowd b =>
+      ({| d_chain := d_chain s; d_pending := d_pending s; d_locked := d_locked s; d_cache := d_cache s; d_full := b;
           d_credit := d_credit s; d_paid := d_paid s; d_in := d_in s |}, 0)
   | DMine =>
       match d_pending s with
       | [] => (s, 0)
-      | p :: rest => ({| d_chain := p; d_pending := rest; d_locked := false; d_cache := Some p;
-                         d_credit := d_credit s; d_paid := d_paid s; d_in := d_in s |}, 0)
+      | p :: rest => (upd s p rest false (cache_set cfg s p) (d_credit s) (d_paid s) (d_in s), 0)
       end
   end.
 
-Definition d0 : dstate := {| d_chain := 0; d_pending := []; d_locked := false; d_cache := None; d_credit := 0; d_paid := 0; d_in := 0 |}.
+Definition d0 : dstate := {| d_chain := 0; d_pending := []; d_locked := false; d_cache := None; d_full := false; d_credit := 0; d_paid := 0; d_in := 0 |}.
 Definition drun (cfg : dcfg) (s : dstate) (ops : list dop) : dstate := fold_left (fun s o => fst (dstep cfg s o)) ops s.
 Fixpoint dpaid (cfg : dcfg) (s : dstate) (ops : list dop) : list Z :=
   match ops with [] => [] | o :: r => snd (dstep cfg s o) :: dpaid cfg (fst (dstep cfg s o)) r end.
